@@ -21,6 +21,8 @@ import Sds.Proofs.Supports
 import Sds.Proofs.Glue2
 import Sds.Generated.SerConsts
 import Sds.Proofs.GenEqEnable
+import Sds.Proofs.GenEqLoad
+import Sds.Proofs.GenEqIdx
 
 namespace Sds.C19
 open Sds Outcome SupportProofs
@@ -331,5 +333,24 @@ theorem enable_methods_as_translated_from_source (m : Mode) (b : BitVector) :
   ⟨GenEq.supports_rank_eq m b, GenEq.supports_select_eq m b, GenEq.supports_select_zero_eq m b,
    GenEq.supports_pred_succ_eq m b, GenEq.enable_rank_eq m b, GenEq.enable_select_eq m b,
    GenEq.enable_select_zero_eq m b, GenEq.enable_pred_succ_eq m b⟩
+
+/-! **Loading composite structures whose embedded bitvectors carry no supports, as translated from the source on this
+run**: `SparseVector::load` and `WaveletMatrix::load` (`Generated/FnsLoad.lean`, with the `enable_select` /
+`enable_select_zero` after a sparse load and the sanity check `high.len() != low.len() + get_buckets(len, low.width())`)
+are the `load` of the model codecs, and `SparseBuilder::get_buckets` — the bucket count that check relies on — is the
+model's on EVERY low width the file format admits (`1..=64`, not only the widths the crate's own builder chooses: at
+width 64 the guarded shift contributes 0), so a file written by anyone following the format loads whatever supports
+its `high` carries. -/
+theorem composite_loaders_as_translated_from_source (m : Mode) (es : Elems) (univ w : Nat) :
+    (GenEq.SparseOk es → Generated.gen_SparseVector_load m es = sparseC.load es) ∧
+    (GenEq.WmOk es → Generated.gen_WaveletMatrix_load m es = wmC.load es) ∧
+    (GenEq.BvOk es → Generated.gen_BitVector_load m es = bitVectorC.load es) ∧
+    (w ≤ 64 → univ < U64 → Generated.gen_SparseBuilder_get_buckets m univ w = ok (Sparse.getBuckets univ w)) :=
+  ⟨GenEq.sparse_load_eq m es, GenEq.wm_load_eq m es, GenEq.bv_load_eq m es, fun hw hu => GenEq.get_buckets_eq m univ w hw hu⟩
+
+/-- the translated `get_buckets` at low width 64 (a width the format admits and the crate's builder never chooses) -/
+example : Generated.gen_SparseBuilder_get_buckets .checked 1000 64 = ok 1 ∧
+    Generated.gen_SparseBuilder_get_buckets .wrapping 1000 64 = ok 1 ∧
+    Generated.gen_SparseBuilder_get_buckets .checked 0 64 = ok 0 := by decide
 
 end Sds.C19
